@@ -4,7 +4,7 @@
    and an ARBITRARY list of events: local close, peer frames (Close with / without code and
    reason, messages handled synchronously / asynchronously / raising, ping, pong, protocol
    violations), peer EOF, connection reset, timer expiry, completion of an asynchronous
-   on_message, write_message. *)
+   on_message, completion of a coroutine open() (server, c_aopen), write_message. *)
 From Coq Require Import List NArith Bool.
 Import ListNotations.
 From TV Require Import Lib.Obs C16.Model C16.Spec C16.Run C16.Inv3 C16.Sound C16.Proofs.
@@ -97,13 +97,24 @@ Theorem C16_close_notification_at_most_once_with_peer_code : forall c evs l1 cc 
 Proof. exact model_on_close_once. Qed.
 Print Assumptions C16_close_notification_at_most_once_with_peer_code.
 
-(* ... and it HAS fired once the connection is down, unless an asynchronous on_message of the
-   application is still pending (it then fires when that completes: same theorem, later state) *)
+(* ... and it HAS fired once the connection is down, unless a coroutine of the application
+   (open(), or an asynchronous on_message) is still pending, which keeps the receive loop from running ... *)
 Theorem C16_close_notification_fired_once_connection_down : forall c evs,
-  s_sc (fst (final c evs)) = true -> s_loop (fst (final c evs)) <> LBlocked ->
+  s_sc (fst (final c evs)) = true ->
+  s_loop (fst (final c evs)) <> LBlocked -> s_loop (fst (final c evs)) <> LOpening ->
   existsb is_onclose (items_of (run c evs)) = true.
 Proof. exact model_reported_once_down. Qed.
 Print Assumptions C16_close_notification_fired_once_connection_down.
+
+(* ... in which case it fires as soon as that coroutine completes: connections torn down during
+   open() (local close + closing timeout, ping timeout, reset) or during on_message are reported too *)
+Theorem C16_close_notification_fires_when_pending_open_or_on_message_completes : forall c evs e,
+  s_sc (fst (final c evs)) = true ->
+  (s_loop (fst (final c evs)) = LOpening /\ e = EOpenDone)
+  \/ (s_loop (fst (final c evs)) = LBlocked /\ e = EMsgDone) ->
+  existsb is_onclose (items_of (run c (evs ++ [e]))) = true.
+Proof. exact model_reported_when_pending_callback_completes. Qed.
+Print Assumptions C16_close_notification_fires_when_pending_open_or_on_message_completes.
 
 (* writes after closing fail with WebSocketClosedError and put nothing on the wire *)
 Theorem C16_write_after_closing_raises : forall c evs,
